@@ -1,5 +1,7 @@
 //! cpc family: replays case files on `datasketches::cpc::CpcSketch` (see Corr/Cpc.v for the op table).
-use datasketches::cpc::CpcSketch;
+use std::collections::HashMap;
+
+use datasketches::cpc::{CpcSketch, CpcUnion, VerifCpcState, VerifCpcUnionState};
 
 use crate::{Family, Ob, PANIC};
 
@@ -7,6 +9,31 @@ pub struct Fam {
     lg_k: u8,
     seed: u64,
     sk: Option<CpcSketch>,
+    /// C06: numbered sketch slots and union slots
+    sks: HashMap<i128, CpcSketch>,
+    uns: HashMap<i128, CpcUnion>,
+}
+
+/// float-free dump `[lg_k; C; off; fic; flavor; merge; |win|; win..; |tab|; sorted tab..]`
+fn dumpnf(st: &VerifCpcState) -> Ob {
+    let mut ob: Ob = vec![
+        st.lg_k as i128,
+        st.num_coupons as i128,
+        st.window_offset as i128,
+        st.first_interesting_column as i128,
+        st.flavor as i128,
+        st.merge_flag as i128,
+    ];
+    ob.push(st.window.len() as i128);
+    ob.extend(st.window.iter().map(|b| *b as i128));
+    ob.push(st.table.len() as i128);
+    ob.extend(st.table.iter().map(|x| *x as i128));
+    ob
+}
+
+fn summarynf(s: &CpcSketch) -> Ob {
+    let (c, off, fic, flavor, _, _) = s.verif_summary();
+    vec![c as i128, off as i128, fic as i128, flavor as i128]
 }
 
 fn canon(bits: u64) -> i128 {
@@ -20,7 +47,7 @@ fn summary(s: &CpcSketch) -> Ob {
 
 impl Family for Fam {
     fn new(cfg: &[i128]) -> Self {
-        Fam { lg_k: cfg[0] as u8, seed: cfg[1] as u64, sk: None }
+        Fam { lg_k: cfg[0] as u8, seed: cfg[1] as u64, sk: None, sks: HashMap::new(), uns: HashMap::new() }
     }
 
     fn step(&mut self, code: i64, a: &[i128]) -> Ob {
@@ -32,6 +59,68 @@ impl Family for Fam {
             }
             6 => vec![CpcSketch::verif_determine_flavor(a[0] as u8, a[1] as u32) as i128],
             7 => vec![CpcSketch::verif_determine_correct_offset(a[0] as u8, a[1] as u32) as i128],
+            10 => {
+                self.sks.insert(a[0], CpcSketch::with_seed(a[1] as u8, self.seed));
+                vec![]
+            }
+            11 | 12 | 13 | 14 | 15 | 16 => {
+                let Some(s) = self.sks.get_mut(&a[0]) else { return vec![PANIC] };
+                match code {
+                    11 => {
+                        s.verif_row_col_update(a[1] as u32);
+                        summarynf(s)
+                    }
+                    12 => {
+                        s.update(a[1] as i64);
+                        summarynf(s)
+                    }
+                    13 => dumpnf(&s.verif_state()),
+                    14 => vec![s.validate() as i128],
+                    15 => s.verif_bit_matrix().iter().map(|w| *w as i128).collect(),
+                    _ => {
+                        let bytes = s.serialize();
+                        let t = CpcSketch::deserialize_with_seed(&bytes, self.seed).expect("round trip");
+                        self.sks.insert(a[0], t);
+                        vec![]
+                    }
+                }
+            }
+            20 => {
+                self.uns.insert(a[0], CpcUnion::with_seed(a[1] as u8, self.seed));
+                vec![]
+            }
+            21 => {
+                let Some(s) = self.sks.get(&a[1]) else { return vec![PANIC] };
+                let Some(u) = self.uns.get_mut(&a[0]) else { return vec![PANIC] };
+                u.update(s);
+                let kind = match u.verif_state() {
+                    VerifCpcUnionState::Accumulator(_) => 0,
+                    VerifCpcUnionState::BitMatrix(_) => 1,
+                };
+                vec![u.lg_k() as i128, u.num_coupons() as i128, kind]
+            }
+            22 => {
+                let Some(u) = self.uns.get(&a[0]) else { return vec![PANIC] };
+                let mut ob: Ob = vec![u.lg_k() as i128];
+                match u.verif_state() {
+                    VerifCpcUnionState::Accumulator(st) => {
+                        ob.push(0);
+                        ob.extend(dumpnf(&st));
+                    }
+                    VerifCpcUnionState::BitMatrix(m) => {
+                        ob.push(1);
+                        ob.extend(m.iter().map(|w| *w as i128));
+                    }
+                }
+                ob
+            }
+            23 => {
+                let Some(u) = self.uns.get(&a[0]) else { return vec![PANIC] };
+                let s = u.to_sketch();
+                let ob = dumpnf(&s.verif_state());
+                self.sks.insert(a[1], s);
+                ob
+            }
             _ => {
                 let Some(s) = self.sk.as_mut() else { return vec![PANIC] };
                 match code {
